@@ -44,7 +44,8 @@ def engageBytes (c : RenderCfg) (m : ModeReq) (altscreen : Bool) : Bytes :=
   tp c ti.enterKeypad ++ tp c ti.hideCursor ++ tp c ti.enableAcs ++ tp c ti.disableAutoMargin ++ tp c ti.clear ++
   (if !m.title.isEmpty ∧ !c.d.setTitle.isEmpty then tp c (parm c.d.setTitle [TParm.Value.str m.title]) else [])
 
-/-- bytes written by disengage after the loops have stopped (tscreen.go:2074-2094) -/
+/-- bytes written by disengage after the loops have stopped (tscreen.go:2074-2094; `t.TPuts(t.exitUrl)` after AttrOff
+since the fix "Fini/Suspend close a hyperlink left open by the last draw") -/
 def disengageBytes (c : RenderCfg) (cursorShaped cursorTinted : Bool) (altscreen : Bool) : Bytes :=
   let ti := c.ti
   tp c ti.showCursor ++
@@ -52,7 +53,7 @@ def disengageBytes (c : RenderCfg) (cursorShaped cursorTinted : Bool) (altscreen
    | some l => if cursorShaped then tp c (l.headD []) else []
    | none => []) ++
   (if !c.d.cursorFg.isEmpty ∧ cursorTinted then tp c c.d.cursorFg else []) ++
-  tp c ti.resetFgBg ++ tp c ti.attrOff ++ tp c ti.exitKeypad ++ tp c ti.enableAutoMargin ++
+  tp c ti.resetFgBg ++ tp c ti.attrOff ++ tp c c.d.exitUrl ++ tp c ti.exitKeypad ++ tp c ti.enableAutoMargin ++
   (if altscreen then (if !c.d.restoreTitle.isEmpty then tp c c.d.restoreTitle else []) ++ tp c ti.clear ++ tp c ti.exitCA else []) ++
   enableMouse c 0 ++ enablePasting c false ++ disableFocusReporting c
 
